@@ -3,6 +3,7 @@ import AgModel.Proofs.PoolS2NComplete
 import AgModel.Proofs.PoolS2NGlue
 import AgModel.Proofs.PoolS2NGlueEvents
 import AgModel.Proofs.PoolS2NGluePanic
+import AgModel.Proofs.PoolS2NGlueSoundEv
 /-!
 # C06 — Safe-to-notar / safe-to-skip are signalled exactly when the protocol allows
 
@@ -312,6 +313,27 @@ theorem pool_s2n_sound (e : Epoch) (ops : List PoolOp) (s h : Nat) (st : SlotSta
   intro p hg hs
   have hc := (poolRun_closed (sentSound_closed e) ops { epoch := e } ⟨rfl, SlotsSat.init e _⟩).2 s st hg h hs
   exact ⟨hc.1, hc.2.2, pool_parent_flag_sound e ops s h st hg hc.2.1⟩
+
+/-- **Pool-level soundness, per emitted event.** Every `SafeToNotar(s, h)` event in the output of a run is for a block that
+    was registered (accepted) with some parent during the run, and a notarization / notar-fallback / fast-finalization
+    certificate for that parent was stored and announced during the run — independently of what happens to the slot state
+    afterwards (it can be pruned within the same operation). With `s2n_s2s_sound` (stake clause, own vote and `true` parent
+    entry in the slot state right after the slot-level step that emitted the event) this is the "only if" half of the
+    statement at pool level. Applied to every prefix of a run: registration and certificate are not later than the operation
+    that emitted the event. -/
+theorem pool_s2n_event_sound (e : Epoch) (ops : List PoolOp) (s h : Nat) :
+    Event.s2n s h ∈ (poolRun { epoch := e } ops).2 →
+    ∃ pre post par c, ops = pre ++ .block (s, h) par :: post ∧
+      (s > par.1 ∧ ∃ t ev, Finality.addParent (poolRun { epoch := e } pre).1.fin (s, h) par = .ok t ev) ∧
+      Event.cert c ∈ (poolRun { epoch := e } ops).2 ∧ (c.kind = .notar ∨ c.kind = .nf ∨ c.kind = .ff) ∧
+      (c.slot, c.hash) = par := by
+  intro hev
+  obtain ⟨par, hr, hc⟩ := poolRun_good e ops [] (fun _ => False) { epoch := e } (SoundInv.init e) _ hev
+  obtain ⟨pre, post, he, ha⟩ := regsRun_mem ops _ _ (by simpa using hr)
+  rcases hc with hc | hc
+  · cases hc
+  · obtain ⟨c, hm, hs, hid⟩ := certIds_mem hc
+    exact ⟨pre, post, par, c, he, ha, hm, hs, hid⟩
 
 /-- **Pool-level completeness of safe-to-skip** (no parent involved, so no glue beyond "the pool applies slot-level
     operations"): in every reachable pool, every slot state in which the node notarized some block and
